@@ -2,7 +2,11 @@
 import json, os, sys
 VERIF = os.path.dirname(os.path.dirname(os.path.abspath(__file__)))
 ALL = [f"C{i:02d}" for i in range(1, 21)]
-CLAIMED = json.load(open(os.path.join(VERIF, "harness", "claims.json")))
+CLAIMED = {}
+_cd = os.path.join(VERIF, "harness", "claims")
+for _f in sorted(os.listdir(_cd)):
+    if _f.endswith(".json"):
+        CLAIMED[_f[:-5]] = json.load(open(os.path.join(_cd, _f)))
 checks = []
 for pid, c in sorted(CLAIMED.items()):
     checks.append({
@@ -20,7 +24,7 @@ na = [{"property_id": p, "reason": "no check registered yet in this round (model
       for p in ALL if p not in CLAIMED]
 m = {
     "version": 1,
-    "setup_cmd": "cd lean && lake build && cd .. && /venv/bin/python harness/selftest.py",
+    "setup_cmd": "/venv/bin/python harness/setup.py",
     "hooks": {
         "guard": "SNAX_MLIR_VERIF",
         "enable": "not needed: all instrumentation is applied from the harness process (harness/compat.py monkeypatches xDSL); nothing in /repo is guarded",
